@@ -44,8 +44,12 @@ end Dec
 inductive Mode | halfUp | up | down
   deriving DecidableEq, Repr, Inhabited
 
+def numDigitsAux : Nat → Nat → Nat
+  | 0, _ => 1
+  | fuel + 1, n => if n < 10 then 1 else numDigitsAux fuel (n / 10) + 1
+
 /-- number of decimal digits of a coefficient (`len(ans._int)`; `0` has one digit) -/
-def numDigits (n : Nat) : Nat := (Nat.toDigits 10 n).length
+def numDigits (n : Nat) : Nat := numDigitsAux n n
 
 /-- rounding of the quotient `q` with remainder `r` of a division by `p`, on magnitudes -/
 def bump (mode : Mode) (q r p : Nat) : Nat :=
